@@ -207,8 +207,8 @@ def replay_transactions(b, hist, spec, data, tx, info):
     bt = rt.bt()
     out = []
     secs = [n for n in hist if hist[n]["__kind__"] == "X"]
-    if tx is None or not secs or len(tx) == 0:
-        return out
+    if tx is None or not secs or len(tx) == 0 or bool(b.strategy.fixed_income):
+        return out  # (a fixed income book is not funded with capital: no market-value replay)
     tickers = sorted(set(n.split(">")[-1] for n in secs))
     mult = {}
     for n in secs:
@@ -291,6 +291,9 @@ def run(ctx):
     for st in R.stacks("quick")[:12]:
         extra.append({"tree": "flat_eager_m", "stack": st, "data": "d12", "alpha": "exact", "integer": False, "capital": 1e6, "rng": 0, "fee": None, "spread": 0.5})
         extra.append({"tree": "nested", "stack": st, "data": "d12", "alpha": "exact", "integer": False, "capital": 1e6, "rng": 0, "fee": None, "spread": 0.5})
+    for g in ("daily", "weekly"):
+        for w in ({"a": 0.5, "b": 0.5}, {"a": 0.75, "b": -0.25}):
+            extra.append({"tree": "fi_hedge", "stack": {"gate": g}, "fi_weights": w, "data": "d12", "alpha": "exact", "late": False, "integer": False, "capital": 0.0, "rng": 0, "fee": None, "spread": None, "mult_d": 2})
     fam = fam + extra
     kinds = ["py"] if ctx.tier == "quick" else ["py", "cy"]
     ctx.bounds = {"runs": len(fam), "builds": kinds}
